@@ -170,14 +170,16 @@ class Driver:
 
     # --------------------------------------------------------------------------
     def setup_env(self, case, wd):
+        """-> (the environment as GIVEN by user and batch system for this
+        initialisation: {variable: value or None}, patches); writes the files"""
         import radical.utils as ru
-        for v in ENV_VARS:
-            os.environ.pop(v, None)
+        given = {v: None for v in ENV_VARS}
+        given['HOME'] = self.home0
         env = case['env']
         rm = case['rm']
         c = case['cfg']
         if c.get('smt_env') is not None:
-            os.environ['RADICAL_SMT'] = str(c['smt_env'])
+            given['RADICAL_SMT'] = str(c['smt_env'])
         patches = []
 
         def nodefile(var, nf, fname):
@@ -185,27 +187,27 @@ class Driver:
                 return
             path = os.path.join(wd, fname)
             if nf.get('missing'):
-                os.environ[var] = path + '.does-not-exist'
+                given[var] = path + '.does-not-exist'
                 return
             with open(path, 'w') as f:
                 f.write(nodefile_text(nf['lines']))
-            os.environ[var] = path
+            given[var] = path
 
         if rm == 'SLURM':
             if env.get('nodelist') is not None:
-                os.environ['SLURM_NODELIST'] = hostlist_text(env['nodelist'])
+                given['SLURM_NODELIST'] = hostlist_text(env['nodelist'])
             if env.get('job_nodelist') is not None:
-                os.environ['SLURM_JOB_NODELIST'] = hostlist_text(env['job_nodelist'])
+                given['SLURM_JOB_NODELIST'] = hostlist_text(env['job_nodelist'])
             for k, var in (('cpus_on_node', 'SLURM_CPUS_ON_NODE'), ('gpus_on_node', 'SLURM_GPUS_ON_NODE')):
                 if env.get(k) is not None:
-                    os.environ[var] = str(env[k])
+                    given[var] = str(env[k])
             for k, var in (('job_gpus', 'SLURM_JOB_GPUS'), ('step_gpus', 'SLURM_STEP_GPUS'),
                            ('ordinal', 'GPU_DEVICE_ORDINAL')):
                 if env.get(k) is not None:
-                    os.environ[var] = ','.join(str(i) for i in range(env[k]))
+                    given[var] = ','.join(str(i) for i in range(env[k]))
         elif rm == 'PBSPRO':
             if env.get('jobid'):
-                os.environ['PBS_JOBID'] = '12345.pbs'
+                given['PBS_JOBID'] = '12345.pbs'
             nodefile('PBS_NODEFILE', env.get('nodefile'), 'nodes.pbs')
             q = env.get('qstat') or {'ret': 1}
             if q.get('ret'):
@@ -224,7 +226,7 @@ class Driver:
         elif rm == 'COBALT':
             nodefile('COBALT_NODEFILE', env.get('nodefile'), 'nodes.cobalt')
             if env.get('partname') is not None:
-                os.environ['COBALT_PARTNAME'] = partname_text(env['partname'])
+                given['COBALT_PARTNAME'] = partname_text(env['partname'])
         elif rm == 'FORK':
             import multiprocessing
             patches.append(mock.patch.object(multiprocessing, 'cpu_count', return_value=env['detected']))
@@ -232,7 +234,7 @@ class Driver:
             home = os.path.join(wd, 'home')
             d = os.path.join(home, '.crayccm')
             os.makedirs(d, exist_ok=True)
-            os.environ['HOME'] = home
+            given['HOME'] = home
             for fn, mtime, lines in env['files']:
                 p = os.path.join(d, fn)
                 with open(p, 'w') as f:
@@ -241,7 +243,29 @@ class Driver:
         if c.get('services'):
             with open(os.path.join(wd, 'services'), 'w') as f:
                 f.write('')
-        return patches
+        return given, patches
+
+    def apply_given(self, given):
+        """change the process environment the way the user / batch system
+        would between two initialisations: only variables whose GIVEN value
+        differs from the previously given one are touched -- whatever an
+        initialisation left behind in the others stays"""
+        for k, v in given.items():
+            if self.prev_given.get(k) != v:
+                if v is None:
+                    os.environ.pop(k, None)
+                else:
+                    os.environ[k] = v
+        self.prev_given = dict(given)
+
+    def pristine_env(self):
+        """a case starts in its own environment: nothing of an earlier case"""
+        for v in ENV_VARS:
+            os.environ.pop(v, None)
+        if self.home0 is not None:
+            os.environ['HOME'] = self.home0
+        self.prev_given = {v: None for v in ENV_VARS}
+        self.prev_given['HOME'] = self.home0
 
     # --------------------------------------------------------------------------
     def configs(self, case):
@@ -303,11 +327,13 @@ class Driver:
         return o
 
     # --------------------------------------------------------------------------
-    def construct(self, case, wd):
+    def construct(self, case, wd, touch_env=True):
         """one real constructor call in environment `case`; -> (obs, instance)"""
         cls = self.cls[case['rm']]
         os.chdir(wd)
-        patches = self.setup_env(case, wd)
+        given, patches = self.setup_env(case, wd)
+        if touch_env:
+            self.apply_given(given)
         cfg, rcfg = self.configs(case)
         FakeProcess.plan = list(case.get('access') or [])
         FakeProcess.made = 0
@@ -317,16 +343,45 @@ class Driver:
         patches.append(mock.patch.object(self.base.ResourceManager, '_prepare_launch_methods', return_value=None))
         for p in patches:
             p.start()
+        env0 = dict(os.environ)
+        dfl0 = copy.deepcopy(self.base.RMInfo._defaults)
         try:
             try:
                 rm = cls(cfg, rcfg, mock.MagicMock(), mock.MagicMock())
-                return {'info': self.info_obs(rm.info)}, rm
+                out = {'info': self.info_obs(rm.info)}, rm
             except Exception as e:
                 n = type(e).__name__
-                return {'exc': n if n in ERRS else 'OtherError', 'msg': str(e)[:120]}, None
+                out = {'exc': n if n in ERRS else 'OtherError', 'msg': str(e)[:120]}, None
         finally:
             for p in reversed(patches):
                 p.stop()
+        # state the initialisation left behind in the process
+        env1 = dict(os.environ)
+        left = sorted(k for k in set(env0) | set(env1) if env0.get(k) != env1.get(k))
+        if self.base.RMInfo._defaults != dfl0:
+            left.append('RMInfo._defaults')
+        out[0]['left_behind'] = left
+        return out
+
+    def step(self, case, wd):
+        """one from-scratch initialisation + a second component reading the registry"""
+        os.makedirs(wd)
+        FakeRegistry.store = {}
+        FakeRegistry.puts = []
+        obs = {}
+        first, rm = self.construct(case, wd)
+        obs['first'] = first
+        obs['puts'] = list(FakeRegistry.puts)
+        obs['stray'] = sorted(f for f in os.listdir(wd)
+                              if f not in ('services', 'home', 'rm_info.json') and not f.startswith('nodes.')
+                              and not f.startswith('hosts.'))
+        if 'info' in first:
+            # another component of the same pilot: same registry, same class, same environment
+            n_puts = len(FakeRegistry.puts)
+            second, _ = self.construct(case, wd, touch_env=False)
+            obs['second'] = second
+            obs['second_from_registry'] = (len(FakeRegistry.puts) == n_puts)
+        return obs
 
     def run(self, case):
         root = os.getcwd()
@@ -334,33 +389,24 @@ class Driver:
         top = os.path.join(root, 'case_%d' % self.n)
         try:
             self.fresh_process_state()
-            FakeRegistry.store = {}
-            FakeRegistry.puts = []
-            obs = {}
-            if case.get('prior'):
-                wd0 = os.path.join(top, 'prior')
-                os.makedirs(wd0)
-                p, _ = self.construct(case['prior'], wd0)
-                obs['prior_ok'] = 'info' in p
-                FakeRegistry.store = {}
-                FakeRegistry.puts = []
-            wd = os.path.join(top, 'main')
-            os.makedirs(wd)
-            first, rm = self.construct(case, wd)
-            obs['first'] = first
-            obs['puts'] = list(FakeRegistry.puts)
-            obs['stray'] = sorted(f for f in os.listdir(wd)
-                                  if f not in ('services', 'home', 'rm_info.json') and not f.startswith('nodes.')
-                                  and not f.startswith('hosts.'))
-            if 'info' in first:
-                # another component of the same pilot: same registry, same class
-                n_puts = len(FakeRegistry.puts)
-                second, _ = self.construct(case, wd)
-                obs['second'] = second
-                obs['second_from_registry'] = (len(FakeRegistry.puts) == n_puts)
+            self.pristine_env()
+            priors = []
+            for k, p in enumerate(case_priors(case)):
+                priors.append(self.step(p, os.path.join(top, 'prior%d' % k)))
+            obs = self.step(case, os.path.join(top, 'main'))
+            if priors:
+                obs['priors'] = priors
             return obs
         finally:
             os.chdir(root)
-            if self.home0 is not None:
-                os.environ['HOME'] = self.home0
+            self.pristine_env()
             shutil.rmtree(top, ignore_errors=True)
+
+
+def case_priors(case):
+    """earlier initialisations in the same process, oldest first"""
+    if case.get('priors'):
+        return list(case['priors'])
+    if case.get('prior'):
+        return [case['prior']]
+    return []
